@@ -125,6 +125,7 @@ type Ctx struct {
 	sum      Summary
 	distinct map[uint64]struct{}
 	violKeys map[string]int
+	known    []KnownFinding
 	pending  *os.File
 	curJob   string
 	curIdx   int64
@@ -134,7 +135,7 @@ type Ctx struct {
 	lastOp   atomic.Value
 }
 
-const maxStoredViolations = 400
+const maxStoredViolations = 600
 const maxPerKey = 3
 
 func NewCtx(prop, tier string, seed int64, shard, nshards int, out string) *Ctx {
@@ -291,10 +292,20 @@ func (c *Ctx) ViolateP(prop, site, clause string, shape map[string]any, input []
 	c.mu.Lock()
 	defer c.mu.Unlock()
 	c.sum.ViolCount++
-	key := prop + "|" + site + "|" + clause + "|" + shapeKey(shape)
-	c.violKeys[key]++
-	if c.violKeys[key] > maxPerKey || len(c.sum.Violations) >= maxStoredViolations {
-		return
+	// Violations matching a listed known finding are stored at most a few times per finding so
+	// that they can never crowd an unlisted violation out of the bounded store.
+	if id := c.matchKnown(prop, site, clause, shape); id != "" {
+		c.violKeys["known:"+id]++
+		if c.violKeys["known:"+id] > maxPerKey {
+			return
+		}
+	} else {
+		key := prop + "|" + site + "|" + clause + "|" + shapeKey(shape)
+		c.violKeys[key]++
+		c.violKeys["new-total"]++
+		if c.violKeys[key] > maxPerKey || c.violKeys["new-total"] > maxStoredViolations {
+			return
+		}
 	}
 	if len(detail) > 2000 {
 		detail = detail[:2000] + "..."
@@ -317,6 +328,148 @@ func shapeKey(s map[string]any) string {
 		out += fmt.Sprintf("%s=%v;", k, s[k])
 	}
 	return out
+}
+
+// KnownFinding mirrors an entry of known_findings.json (status "known" only).
+type KnownFinding struct {
+	ID       string         `json:"id"`
+	Status   string         `json:"status"`
+	Property string         `json:"property"`
+	Site     any            `json:"site"`
+	Clause   any            `json:"clause"`
+	Match    map[string]any `json:"match"`
+}
+
+// LoadKnown reads the known-findings file (never written at run time).
+func (c *Ctx) LoadKnown(path string) {
+	b, err := os.ReadFile(path)
+	if err != nil {
+		return
+	}
+	var f struct {
+		Findings []KnownFinding `json:"findings"`
+	}
+	if json.Unmarshal(b, &f) != nil {
+		return
+	}
+	for _, k := range f.Findings {
+		if k.Status == "known" {
+			c.known = append(c.known, k)
+		}
+	}
+}
+
+func oneOf(spec any, v string) bool {
+	switch s := spec.(type) {
+	case nil:
+		return true
+	case string:
+		return s == v
+	case []any:
+		for _, x := range s {
+			if xs, ok := x.(string); ok && xs == v {
+				return true
+			}
+		}
+	}
+	return false
+}
+
+func num(v any) (float64, bool) {
+	switch x := v.(type) {
+	case int:
+		return float64(x), true
+	case int64:
+		return float64(x), true
+	case float64:
+		return x, true
+	case uint16:
+		return float64(x), true
+	case uint32:
+		return float64(x), true
+	}
+	return 0, false
+}
+
+func predOK(pred any, val any) bool {
+	if m, ok := pred.(map[string]any); ok {
+		for op, ref := range m {
+			v, vok := num(val)
+			r, _ := num(ref)
+			switch op {
+			case "gt":
+				if !vok || !(v > r) {
+					return false
+				}
+			case "ge":
+				if !vok || !(v >= r) {
+					return false
+				}
+			case "lt":
+				if !vok || !(v < r) {
+					return false
+				}
+			case "le":
+				if !vok || !(v <= r) {
+					return false
+				}
+			case "in":
+				found := false
+				if lst, ok := ref.([]any); ok {
+					for _, x := range lst {
+						if fmt.Sprint(x) == fmt.Sprint(val) {
+							found = true
+						}
+					}
+				}
+				if !found {
+					return false
+				}
+			case "prefix":
+				vs, _ := val.(string)
+				rs, _ := ref.(string)
+				if len(vs) < len(rs) || vs[:len(rs)] != rs {
+					return false
+				}
+			case "contains":
+				vs, _ := val.(string)
+				rs, _ := ref.(string)
+				if !containsStr(vs, rs) {
+					return false
+				}
+			}
+		}
+		return true
+	}
+	return fmt.Sprint(pred) == fmt.Sprint(val)
+}
+
+func containsStr(s, sub string) bool {
+	for i := 0; i+len(sub) <= len(s); i++ {
+		if s[i:i+len(sub)] == sub {
+			return true
+		}
+	}
+	return false
+}
+
+func (c *Ctx) matchKnown(prop, site, clause string, shape map[string]any) string {
+	for _, k := range c.known {
+		if k.Property != prop || !oneOf(k.Site, site) || !oneOf(k.Clause, clause) {
+			continue
+		}
+		ok := true
+		for key, p := range k.Match {
+			if !predOK(p, shape[key]) {
+				ok = false
+				break
+			}
+		}
+		if ok {
+			return k.ID
+		}
+	}
+	return ""
 }
 
 // Call runs f (a call into the library) under the event discipline: the operation and
